@@ -251,3 +251,11 @@ Proof.
   - apply truncate_max_gt_all in E. rewrite (lex_le_lt_trans v d r H E). discriminate.
   - apply truncate_max_not_truncated in E. now subst.
 Qed.
+
+Lemma exact_flags utf8 tl d t :
+  (truncate_min_value utf8 tl d = (t, false) -> t = d) /\ (truncate_max_value utf8 tl d = (t, false) -> t = d).
+Proof. split; [apply truncate_min_not_truncated|apply truncate_max_not_truncated]. Qed.
+
+Lemma truncated_cover utf8 tl mn mx v : lex mn v <> Gt -> lex v mx <> Gt ->
+  lex (fst (truncate_min_value utf8 tl mn)) v <> Gt /\ lex v (fst (truncate_max_value utf8 tl mx)) <> Gt.
+Proof. intros; split; [now apply truncated_min_bounds|now apply truncated_max_bounds]. Qed.
